@@ -105,6 +105,29 @@ func initSyncIntrinsics() {
 		return nil, true
 	})
 
+	// sync.Pool: nothing is ever pooled (Get always builds a new object, Put drops it)
+	reg("(*sync.Pool).Get", func(fr *frame, a []value) (value, bool) {
+		st, ok := (*a[0].(*value)).(structure)
+		if !ok || len(st) == 0 {
+			return nil, false
+		}
+		newFn := st[len(st)-1]
+		switch f := newFn.(type) {
+		case nil:
+			return iface{}, true
+		case *ssa.Function:
+			if f == nil {
+				return iface{}, true
+			}
+		case *closure:
+			if f == nil {
+				return iface{}, true
+			}
+		}
+		return call(fr.i, fr, 0, newFn, nil), true
+	})
+	reg("(*sync.Pool).Put", func(fr *frame, a []value) (value, bool) { return nil, true })
+
 	// sync.Cond: waiters are parked until signalled; L is released while waiting
 	type condWaiter struct{ signalled bool }
 	type condState struct{ waiters []*condWaiter }
